@@ -2,6 +2,8 @@
 import csv
 import io
 import os
+import shutil
+import tempfile
 
 import core
 import engine
@@ -28,8 +30,8 @@ def model_out_rows(m):
 def run(ctx):
     rnd = ctx.rnd
     ctx.rule = ("sequences of 0-8 rows mixing accepted rows, field errors, wrong item counts and duplicates x delimited and fixed CIDs (fixed: every line delimiter setting LF / CR / CRLF / Any / None; 1-4 fields, IsUnique / "
-                "DistinctCount / plugin checks) x header 0-1; outcome of every write_row (half of the scenarios through write_rows batches), stream contents, then cutplace.rows over the produced output; "
-                "distinct = distinct (CID, row sequence); non-trivial = at least one row written")
+                "DistinctCount / plugin checks) x header 0-1; outcome of every write_row (half of the scenarios through write_rows batches), stream contents, then cutplace.rows over the produced output, both as a stream and stored in a file read through its path; "
+                "rows the target file's encoding cannot represent (3 formats x column x text); distinct = distinct (CID, row sequence); non-trivial = at least one row written")
     n = 1200 if ctx.tier == "quick" else 15000
     scns = []
     for _ in range(n):
@@ -40,6 +42,11 @@ def run(ctx):
             # the validating writer pads: hand it unpadded values (and sometimes a wrong item count)
             rows = [[c.rstrip(" ") if rnd.random() < 0.7 else c for c in r] for r in rows]
             rows = [r[:-1] if (rnd.random() < 0.07 and len(r) > 1) else r for r in rows]
+            # values that end in white space other than a blank: padding adds blanks, it never replaces characters
+            for r in rows:
+                for j, f in enumerate(fields):
+                    if j < len(r) and f["type"] in ("Text", "Scripted") and rnd.random() < 0.04 and 0 < len(r[j].rstrip(" ")) < f["width"]:
+                        r[j] = r[j].rstrip(" ") + rnd.choice(["\t", "\xa0"])
         if rows and rnd.random() < 0.4:
             rows.insert(rnd.randrange(len(rows) + 1), list(rnd.choice(rows)))  # a duplicate
         header = rnd.choice([0, 0, 1, 1, 2])
@@ -89,6 +96,67 @@ def run(ctx):
                 blanks_matter = scn["format"] == "fixed"
                 sig = "C14:read-back:%s:%s" % (scn["format"], "padding-changes-verdict" if blanks_matter else "other")
                 ctx.violation(sig, "output %r read back as %r, written rows %r" % (i["text"], [str(b) if isinstance(b, Exception) else b for b in back], out_rows), case)
+            else:
+                # the same output stored in a file and read back through its path
+                tmp_dir = tempfile.mkdtemp(prefix="c14-")
+                try:
+                    path = os.path.join(tmp_dir, "out.txt")
+                    with open(path, "w", newline="", encoding=cid.data_format.encoding) as f:
+                        f.write(i["text"])
+                    try:
+                        back2 = list(validio.Reader(engine.build_cid(scn), path, on_error="yield").rows())
+                    except Exception as error:  # noqa
+                        back2 = [error]
+                finally:
+                    shutil.rmtree(tmp_dir, ignore_errors=True)
+                if back2 != out_rows:
+                    ctx.violation("C14:read-back-from-file:%s:%s" % (scn["format"], scn.get("line", "lf") if scn["format"] == "fixed" else "-"),
+                                  "output %r stored in a file reads back as %r, written rows %r" % (i["text"], [str(b) if isinstance(b, Exception) else b for b in back2], out_rows), case)
+    unencodable_cases(ctx)
+
+
+def unencodable_cases(ctx):
+    """a row the target's encoding cannot represent is a rejected row: nothing of it reaches the file, the next row does"""
+    from cutplace import errors, interface, validio
+
+    for fmt, line_name, sep in (("Fixed", "LF", "\n"), ("Fixed", "CRLF", "\r\n"), ("Delimited", "LF", "\r\n")):
+        for bad_col in (0, 1, 2):
+            for bad_text in ("\u20ac", "a\u20ac", "\u65e5\u672c"):
+                cid = interface.Cid()
+                rows_ = [["D", "Format", fmt], ["D", "Encoding", "ascii"], ["D", "Line delimiter", line_name]]
+                rows_ += [["F", "a", "", "", "3" if fmt == "Fixed" else "", "Text", ""], ["F", "b", "", "", "3" if fmt == "Fixed" else "", "Text", ""],
+                          ["F", "c", "", "", "3" if fmt == "Fixed" else "", "Text", ""]]
+                cid.read("c14-enc", rows_)
+                good1, good2 = ["ab", "cd", "ef"], ["gh", "ij", "kl"]
+                bad = list(good1)
+                bad[bad_col] = bad_text
+                tmp_dir = tempfile.mkdtemp(prefix="c14-")
+                try:
+                    path = os.path.join(tmp_dir, "out.txt")
+                    verdicts = []
+                    with validio.Writer(cid, path) as writer:
+                        for row in (good1, bad, good2):
+                            try:
+                                writer.write_row(row)
+                                verdicts.append("k")
+                            except errors.DataError:
+                                verdicts.append("rejected")
+                            except Exception as error:  # noqa
+                                verdicts.append("!" + core.classify_exception(error))
+                    with open(path, "rb") as f:
+                        written = f.read().decode("ascii", "replace")
+                finally:
+                    shutil.rmtree(tmp_dir, ignore_errors=True)
+                if fmt == "Fixed":
+                    want = "".join("".join(c.ljust(3) for c in r) + sep for r in (good1, good2))
+                else:
+                    want = "".join(",".join(r) + sep for r in (good1, good2))
+                case = {"format": fmt, "line": line_name, "rows": [good1, bad, good2], "verdicts": verdicts, "written": written}
+                ctx.count(key=("unencodable", fmt, line_name, bad_col, bad_text), branch="unencodable:%s" % fmt)
+                if verdicts != ["k", "rejected", "k"]:
+                    ctx.violation("C14:unencodable-row:verdicts:%s" % fmt, "writing %r under encoding ascii gives %r" % (case["rows"], verdicts), case)
+                elif written != want:
+                    ctx.violation("C14:unencodable-row:output:%s" % fmt, "file holds %r after a rejected row, accepted rows render as %r" % (written, want), case)
 
 
 def replay(ctx, case):
